@@ -318,6 +318,13 @@ let () =
        | Some out -> Printf.printf "B %s ok %s\n" tag (hex_of_bytes out)
        | None -> Printf.printf "B %s fail\n" tag);
       loop ()
+    | Some "D" ->
+      (* D tag hex : EscapeDot.escape, and the fields read back from the escaped text split at unprotected bars *)
+      let tag = (match next () with Some s -> s | None -> failwith "tag") in
+      let b = (match next () with Some s -> bytes_of_hex s | None -> failwith "hex") in
+      let e = escape b in
+      Printf.printf "D %s %s %s\n" tag (hex_of_bytes e) (String.concat "," (List.map (fun f -> hex_of_bytes (unescape f)) (splitp e [])));
+      loop ()
     | Some "W" ->
       (* W tag nstates nsyms cells... : Draw.draw_nodes / draw_edges on a dense matrix (the items of the nodes are not printed) *)
       let tag = (match next () with Some s -> s | None -> failwith "tag") in
